@@ -710,6 +710,10 @@ func (i *Interpreter) ProcessDeliver() error {
 	} else if i.ctx.BackendResponse != nil {
 		i.ctx.Response = i.ctx.BackendResponse.Clone()
 	}
+	// e.g. return(deliver_stale) in vcl_miss: neither a cached object nor a backend response exists
+	if i.ctx.Response == nil {
+		return exception.Runtime(nil, "No object or backend response to deliver in DELIVER")
+	}
 
 	// Add Fastly related server info but values are falco's one.
 	// Note that these headers could be removed in vcl_deliver subroutine
